@@ -1,4 +1,4 @@
-use crate::backend::GenericSocketBackend;
+use crate::backend::{ForgetConn, GenericSocketBackend};
 use crate::codec::{Message, ZmqFramedRead};
 use crate::fair_queue::FairQueue;
 use crate::transport::AcceptStopHandle;
@@ -72,7 +72,8 @@ impl SocketRecv for PullSocket {
                     // Ignore non-message frames (Command, Greeting) as PULL sockets are designed to only receive actual messages, not internal protocol frames.
                 }
                 Some((peer_id, Err(e))) => {
-                    self.backend.peer_disconnected(&peer_id);
+                    self.backend
+                        .forget_conn(&peer_id, self.fair_queue.last_conn());
                     // Handle potential errors from the fair queue
                     return Err(e.into());
                 }
